@@ -137,6 +137,37 @@ SPECS["C15"] = {
     "assumptions": [],
 }
 
+NATS_NOTE = "nats.go / go-stomp are not interpreted: their methods are redirected to the contract model written in Go in harness/libgo/zz_verif_nats.go (one dispatcher goroutine per subscription calling the callback sequentially in arrival order; Unsubscribe stops delivery at once; Drain stops intake and delivers what is pending; Barrier(f) runs f after everything pending at the call was handed to callbacks) and to a channel-backed stomp.Subscription; results are relative to that contract. "
+
+SPECS["C07"] = {
+    "level": "model_checking",
+    "groups": [dict(LIBGO, entries=[
+        {"name": "VerifC07_NatsPubSub", "native": False, "quick": {"params": [1, 2], "bound": 1, "flags": ["-preempt", "1"]},
+         "thorough": {"params": [1, 2, 3], "bound": 2, "flags": ["-preempt", "1", "-par", "5"], "procs": 3},
+         "expect_reach": ["end", "valid", "short-frame", "bad-header", "other-op", "foreign-topic"]},
+        {"name": "VerifC07_StompSub", "native": False, "quick": {"params": [1, 2], "bound": 1, "flags": ["-preempt", "1"]},
+         "thorough": {"params": [1, 2, 3], "bound": 2, "flags": ["-preempt", "1", "-par", "5"], "procs": 3},
+         "expect_reach": ["end", "valid", "short-frame", "bad-header", "other-op", "handler-fails"]},
+    ])],
+    "level_text": "Bounded symbolic execution with threads of the real publish path (FStandardClient.Publish/prepareMessage, fNatsPublisherTransport.Publish) and the real subscriber transports (fNatsSubscriberTransport.Subscribe/putMessageToWorkerQueue/worker/Unsubscribe; fStompSubscriberTransport.Subscribe/processMessages/ackMessage/Unsubscribe) with a receive callback of the generated shape (ReadRequestHeader, ReadMessageBegin, op check, payload, handler): for every sequence of n messages, each one valid (symbolic payload and header), shorter than 4 bytes, with a corrupt header block, for another operation, on another topic, or (STOMP) with a failing handler, the handler runs exactly once per valid message of this topic and operation, in publish order, with equal payload, header and correlation id; bad messages never stop later ones (a lost message is a deadlock of the harness); STOMP acks exactly the successfully handled messages once; nothing published after Unsubscribe returned reaches the handler; no goroutine panics. Outside: real brokers, multi-worker ordering, generated recv code (hand-written equivalent here).",
+    "level_note": "Trusted: go/ssa, gose interpreter and scheduler model, z3. " + NATS_NOTE + SCHED_NOTE,
+    "bounds": {"quick": "n <= 2 messages, payload 1 byte, header 1 byte, delay bound 1", "thorough": "n <= 3 messages, payload 2 bytes"},
+    "assumptions": ["broker contract as modelled", "single worker (default)"],
+}
+
+SPECS["C20"] = {
+    "level": "model_checking",
+    "groups": [dict(LIBGO, entries=[
+        {"name": "VerifC20_ShutdownDrains", "native": False, "quick": {"params": [0, 1, 2, 3, 4, 5], "bound": 2, "flags": ["-preempt", "2"], "procs": 6},
+         "thorough": {"params": [0, 1, 2, 3, 4, 5], "bound": 3, "flags": ["-preempt", "2", "-par", "2"], "procs": 6},
+         "expect_reach": ["end", "racing-request", "burst-exceeds-queue"]},
+    ])],
+    "level_text": "Bounded symbolic execution with threads of the real fNatsServer (Serve, handler, worker, processFrame, Stop, drainNatsMessages) with a counting processor whose handler takes an arbitrary time, for workers in {1,2} x queue length in {0,1,2}: r requests received before Stop is called, optionally one racing with Stop and one arriving after Stop returned: every request received before Stop is processed exactly once and its reply is published before Serve returns; the late one is not processed; the racing one at most once and answered iff processed; Stop and Serve return (no deadlock) also when the burst exceeds queue+workers. Outside: real nats.go internals.",
+    "level_note": "Trusted: go/ssa, gose interpreter and scheduler model, z3. " + NATS_NOTE + SCHED_NOTE,
+    "bounds": {"quick": "r <= 2 requests before Stop, delay bound 2", "thorough": "r <= 3"},
+    "assumptions": ["nats.go Drain/Flush/Barrier contract as modelled", "worker count >= 1"],
+}
+
 OVERLAYS = {}
 
 HOOK_COMMITS = []
